@@ -264,11 +264,23 @@ func payAggregate(uid uint64, nok bool) *eth2api.Response[*eth2spec.VersionedAtt
 // Methods under test.
 
 type method struct {
-	Name   string
-	Style  string // provide | submit
-	HasNOK bool
-	call   func(ctx context.Context, cl eth2wrap.Client) (any, error)
-	expect func(uid uint64, nok bool) any
+	Name     string
+	Style    string // provide | submit
+	SigStyle string // style used in violation signatures (defaults to Style)
+	HasNOK   bool
+	call     func(ctx context.Context, cl eth2wrap.Client) (any, error)
+	expect   func(uid uint64, nok bool) any
+	// cell-dependent variants (Proxy: the request and the expected answer depend on the cell)
+	callCell   func(ctx context.Context, cl eth2wrap.Client, c *cellRun) (any, error)
+	expectCell func(c *cellRun, n *node) any
+}
+
+func (m *method) sigStyle() string {
+	if m.SigStyle != "" {
+		return m.SigStyle
+	}
+
+	return m.Style
 }
 
 var methods = []*method{
@@ -374,7 +386,12 @@ func (n *node) label() string {
 
 // serve blocks on the node's gate (and, unless the node ignores it, on its context) and then
 // returns the scripted error; nil means "answer with the payload".
-func (n *node) serve(ctx context.Context) error {
+func (n *node) serve(ctx context.Context) error { return n.serveH(ctx, nil, nil) }
+
+// serveH is serve with two hooks: pre runs as soon as the node is called (before it blocks on its
+// gate), post after the gate opened and before the node is reported as having answered; a non-nil
+// error from post replaces the scripted outcome of a healthy node.
+func (n *node) serveH(ctx context.Context, pre func(), post func() error) error {
 	c := n.run
 	c.mu.Lock()
 	first := c.entered&n.bit == 0
@@ -386,6 +403,9 @@ func (n *node) serve(ctx context.Context) error {
 	c.tracef("enter %s", n.label())
 	c.mu.Unlock()
 	c.bump()
+	if pre != nil {
+		pre()
+	}
 
 	var ctxDone <-chan struct{}
 	if !n.spec.Deaf {
@@ -411,6 +431,11 @@ func (n *node) serve(ctx context.Context) error {
 		}
 	} else {
 		err = n.err
+		if post != nil {
+			if perr := post(); perr != nil && err == nil {
+				err = perr
+			}
+		}
 	}
 	c.mu.Lock()
 	if n.spec.Class == clHang {
